@@ -638,7 +638,9 @@ func runC09(p *core.Prog, r *core.Report) {
 				}
 			}
 		}
-		inMod := func(g *ssa.Global) bool { return g.Pkg != nil && p.Pkgs != nil && strings.HasPrefix(g.Pkg.Pkg.Path(), c.ParseSrc.Pkg.Pkg.Path()[:strings.LastIndex(c.ParseSrc.Pkg.Pkg.Path(), "/")]) }
+		inMod := func(g *ssa.Global) bool {
+			return g.Pkg != nil && p.Pkgs != nil && strings.HasPrefix(g.Pkg.Pkg.Path(), c.ParseSrc.Pkg.Pkg.Path()[:strings.LastIndex(c.ParseSrc.Pkg.Pkg.Path(), "/")])
+		}
 		// package variables that hold a once-only memo (`var home = sync.OnceValues(os.UserHomeDir)`)
 		memo := map[*ssa.Global]string{}
 		for _, sp := range p.SPkgs {
